@@ -366,13 +366,14 @@ func init() {
 				for _, sc := range storeScenarios(u) {
 					for _, cmd := range []string{"GET", "SET", "DEL", "EVALSHA", "PING", "EXISTS"} {
 						rs, _ := sc.setup(e)
-						e.redisFault = map[string]string{cmd: "before"}
 						if cmd == "EVALSHA" {
-							e.redisFault["EVAL"] = "before" // redislock falls back to EVAL on NOSCRIPT
+							e.setRedisFault(map[string]string{cmd: "before", "EVAL": "before"}) // redislock falls back to EVAL on NOSCRIPT
+						} else {
+							e.setRedisFault(map[string]string{cmd: "before"})
 						}
 						v, real := e.serveCase(rs, nil, "redisfault:"+cmd)
-						hit := len(e.redisFault) == 0 || (cmd == "EVALSHA" && len(e.redisFault) < 2)
-						e.redisFault = nil
+						hit := e.redisFaultsLeft() == 0 || (cmd == "EVALSHA" && e.redisFaultsLeft() < 2)
+						e.setRedisFault(nil)
 						if v == nil {
 							continue
 						}
@@ -435,9 +436,9 @@ func init() {
 						continue
 					}
 					rs, b := sc.setup(e)
-					e.redisFault = map[string]string{"DEL": "always"}
+					e.setRedisFault(map[string]string{"DEL": "always"})
 					v, real := e.serveCase(rs, nil, "redisfault:DEL-always")
-					e.redisFault = nil
+					e.setRedisFault(nil)
 					if v == nil {
 						continue
 					}
@@ -635,9 +636,9 @@ func init() {
 				warm := len(e.do(reqSpec{Target: "/app/warm", Cookie: ck}).Hits) > 0
 				servedAs := func(v *respView) bool { return len(v.Hits) > 0 || v.Status == 200 || v.Status == 202 }
 				for _, target := range []string{"/app/x", "/oauth2/auth", "/oauth2/userinfo"} {
-					e.redisFault = map[string]string{"GET": "drop-always"}
+					e.setRedisFault(map[string]string{"GET": "drop-always"})
 					v := e.do(reqSpec{Target: target, Cookie: ck})
-					e.redisFault = nil
+					e.setRedisFault(nil)
 					c.casen("c13|conn-dropped|"+target, fmt.Sprint(v.Status))
 					c.count("c13:connection-dropped")
 					if servedAs(v) {
@@ -663,17 +664,18 @@ func init() {
 						c.count("c13:served-again-after-redis-came-back")
 					}
 					// a login while every write's connection is closed without a reply: no cookie for a session that was not stored
+					var dropSets atomic.Bool
 					e.mr.Server().SetPreHook(func(p *server.Peer, cmd string, args ...string) bool {
-						if strings.ToUpper(cmd) == "SET" && e.redisFault["SET"] == "drop-always" {
+						if strings.ToUpper(cmd) == "SET" && dropSets.Load() {
 							p.Close()
 							return true
 						}
 						return false
 					})
-					e.redisFault = map[string]string{"SET": "drop-always"}
+					dropSets.Store(true)
 					nb := newBrowser()
 					lr2 := e.login(nb, u, "/")
-					e.redisFault = nil
+					dropSets.Store(false)
 					c.casen("c13|set-dropped", fmt.Sprint(lr2.OK))
 					c.count("c13:write-connection-dropped")
 					if hasAnySessionCookie(nb, e.opts.Cookie.Name) {
@@ -1041,11 +1043,11 @@ func init() {
 						// for the store's answer.  (What a replay of the old ticket does then is a store fault on top: not judged here.)
 						delFails := redis && refreshOK && !grow && len(k.name)%2 == 0
 						if delFails {
-							e.redisFault = map[string]string{"DEL": "always"}
+							e.setRedisFault(map[string]string{"DEL": "always"})
 						}
 						v := e.do(reqSpec{Target: "/app/x", Cookie: ck})
 						if delFails {
-							e.redisFault = nil
+							e.setRedisFault(nil)
 							c.count("c14:validate-fault-while-deletes-fail")
 						}
 						resetIDP(e.idp)
